@@ -16,7 +16,12 @@ def summarize(r):
 def run(tier, seed):
     ctx = core.Ctx("C19", tier, seed, LEVEL)
     nproc = 3 if tier == "quick" else 20
-    srcs = streams.exploration_sources(ctx, tier, seed, caps={"soup": 6000, "arms": 10000, "c15": 8000}, which=("soup", "arms", "c15", "flat", "repo"))
+    srcs = streams.exploration_sources(ctx, tier, seed, caps={"soup": 6000, "arms": 10000, "c15": 8000}, which=("soup", "arms", "c15", "flat", "c08", "repo"))
+    # case twins: the same multi-fault inputs with counterpart names that differ only in letter case (Dto / DTO / dto), so that diagnostics
+    # which name a type are equal up to case -- any ordering of the diagnostics that is not a total order on the exact text shows here
+    import re
+    twin = lambda t: re.sub(r"\bZ\b", "dto", re.sub(r"\bB\b", "DTO", re.sub(r"\bA\b", "Dto", t)))
+    srcs += [("c15case", a, twin(t)) for st, a, t in srcs if st == "c15"]
     inp = [{"id": i, "src": s[2]} for i, s in enumerate(srcs)]
     runs = [[] for _ in inp]
     first = core.expand(inp, "syn1", repeat=2)                 # twice in one process
@@ -52,7 +57,7 @@ def run(tier, seed):
     ctx.cov["expansions_per_input"] = 2 + nproc
     ctx.cov["inputs_with_2plus_diagnostics"] = sum(1 for rs in runs if len(rs[0]["msgs"]) >= 3)
     ctx.cov["distinct_nontrivial"] = ctx.cov["inputs_with_2plus_diagnostics"] + sum(1 for rs in runs if rs[0]["verdict"] == "ok")
-    ctx.cov["rule"] = ("TLC-generated inputs (arm coverage: accepted and rejected; C15 stream: 1-4 simultaneous faults; token soup) and all repository inputs; each "
+    ctx.cov["rule"] = ("TLC-generated inputs (arm coverage: accepted and rejected; C15 stream: 1-4 simultaneous faults, also with counterpart names differing only in letter case; token soup) and all repository inputs; each "
                        "expanded twice in one process and once in each of N freshly started processes (alternating back-ends, different shardings); TLC judges "
                        "that verdict, token hash and the ordered list of diagnostics are identical across runs of one back-end.  Non-trivial = accepted, or rejected "
                        "with at least two diagnostics (where an unordered container could show).")
